@@ -241,13 +241,27 @@ def observe(inp):
         its = f.valid_range.items
         obs["range"] = None if its is None else [list(i) for i in its]
     for cell in inp["cells"]:
-        try:
-            obs["cells"].append(["ok", canon_value(f.validated_value(cell))])
-        except errors.FieldValueError:
-            obs["cells"].append(["reject"])
-        except Exception as e:  # noqa
-            obs["cells"].append(["leak", type(e).__name__])
+        obs["cells"].append(outcome(f.validated_value, cell))
+    # end to end through validated(): a fixed-width cell is the value padded with blanks on either side
+    obs["e2e"] = []
+    if inp["fmt"] == "fixed" and f.length.items is not None:
+        width = f.length.lower_limit
+        for cell, direct in zip(inp["cells"], obs["cells"]):
+            if cell == cell.strip() and len(cell) < width and direct[0] != "leak":
+                for padded in (cell.ljust(width), cell.rjust(width), " " + cell):
+                    got = outcome(f.validated, padded)
+                    if got != direct:
+                        obs["e2e"].append([padded, got, direct])
     return obs
+
+
+def outcome(fn, cell):
+    try:
+        return ["ok", canon_value(fn(cell))]
+    except errors.FieldValueError:
+        return ["reject"]
+    except Exception as e:  # noqa
+        return ["leak", type(e).__name__]
 
 
 def make_case(inp):
@@ -297,6 +311,9 @@ def length_items(text):
 def direct_oracle(inp, obs):
     if obs["decl"] != "ok":
         return None
+    if obs.get("e2e"):
+        padded, got, direct = obs["e2e"][0]
+        return "fixed-width cell %r is judged %r but its value is judged %r" % (padded, got, direct)
     for cell, o in zip(inp["cells"], obs["cells"]):
         if o[0] == "leak" and not inp.get("hostile"):
             return "validated_value(%r) raised %s instead of a FieldValueError" % (cell, o[1])
